@@ -459,6 +459,11 @@ def main():
     if focus and not probe.get('found'):
         p2 = probe_search(pid, seed + 1, max(budget * 5, 150000), focus, skip)      # only reached when an obligation already failed: worth the seconds
         if p2.get('found'): probe = p2
+    elif prereq and not probe.get('found'):
+        # only obligations of OTHER properties failed: the proof of this property is unavailable on this tree and the bounded search alone
+        # decides - focus it on the views whose obligations failed, with a larger budget (never reached on a tree that verifies)
+        p2 = probe_search(pid, seed + 1, max(budget * 5, 100000), sorted(set(f['module'] for f in prereq)), skip)
+        if p2.get('found'): probe = p2
     # translation validation of the extraction (vf/mkexec.py): the generated text, compiled by Verus with an executable scalar model, must agree
     # bit for bit with the real crate on the replayed cases; bounded, never counted as proof; a disagreement is a defect of the extraction (exit 2)
     tv = None
